@@ -10,6 +10,7 @@ package main
 import (
 	"fmt"
 	"math/bits"
+	"runtime/debug"
 	"sort"
 
 	"github.com/openacid/low/bitmap"
@@ -217,6 +218,9 @@ func init() {
 		kind, shape, n, seed := a[0], int(mustI64(a[1])), int(mustI64(a[2])), mustU64(a[3])
 		if n < 0 || n >= 1<<25 {
 			panic("harness: bmprobe size outside the int32 domain")
+		}
+		if n >= 1<<20 {
+			debug.FreeOSMemory() // collect what earlier cases left before allocating hundreds of megabytes
 		}
 		ws := probeBitmap(shape, n, seed)
 		orig := append([]uint64(nil), ws...)
